@@ -245,8 +245,13 @@ def validate(lines, dev=False, par=None):
         if not summ or summ[-1]["lines"] != len(ch):
             raise vlib.Infra("trace validation did not complete: %s %s\n%s"
                              % (r.violation, r.error, r.out[-3000:]))
-        bad = tlc_printed(r.out, "C19BAD")
-        bad = bad[-1] if bad else []
+        seen, bad = set(), []
+        for blk in tlc_printed(r.out, "C19BAD"):
+            for b in blk:
+                k = (b["id"], b["pos"])
+                if k not in seen:
+                    seen.add(k)
+                    bad.append(b)
         if r.ok and summ[-1]["failed"] == 0 and not bad:
             return [], summ[-1]["checks"], r.distinct
         if r.violation == "Accepted" and bad and len(bad) == summ[-1]["failed"]:
@@ -361,7 +366,7 @@ def body(t0, tier, p, rng, work):
     explained, unexplained = [], []
     for b in bad:
         (explained if legacy_edge_signature(by_id[b["id"]], b) else unexplained).append(b)
-    if explained:
+    if explained and not unexplained:
         # the observations must be accepted by TLC once the deviation is switched on
         ids = sorted(set(b["id"] for b in explained))
         dbad, _, _ = validate([json.dumps(by_id[i]) for i in ids], dev=True)
